@@ -206,8 +206,10 @@ class TFLiteSemantic:
         self.specific_constraints[Op.UnidirectionalSequenceLstm].append(TFLiteSemantic.constraint_lstm_intermediates)
         self.specific_constraints[Op.UnidirectionalSequenceLstm].append(TFLiteSemantic.constraint_lstm_variables)
 
-        # Exp specific checks
-        self.specific_constraints[Op.Exp].append(TFLiteSemantic.constraint_input_signed)
+        # Exp, Log, Sqrt and Gelu specific checks (the graph optimiser converts these to a LUT that it can only
+        # generate for int8 and int16, see convert_ops_to_lut)
+        for op_type in (Op.Exp, Op.Log, Op.Sqrt, Op.Gelu):
+            self.specific_constraints[op_type].append(TFLiteSemantic.constraint_input_signed)
 
         # Transpose specific checks
         self.specific_constraints[Op.Transpose].append(TFLiteSemantic.constraint_transpose_permutation_size)
